@@ -116,6 +116,11 @@ claim('C16', 'reference-model monitor on ConeCyl linear matrices: energy Hessian
       'fk0/fkG0 at alpha=0 vs fk0_cyl/fkG0_cyl called directly with the same F; iso short-cut models vs general models with an isotropic laminate; kG0 linear in (Fc,P,T) and combined-load split.',
       'ConeCyl.strain of the matching commons module (iso models borrow the general model field); FSDT models are outside the energy clause as in the statement', '4/C16')
 
+claim('C18', 'monitors on the real ConeCyl: geometry identities after _rebuild, inverse book-keeping of exclude_dofs_matrix/calc_full_c on random sparse matrices, calc_fext judged by virtual work against ConeCyl.uvw (quadrature of the recovered field), recorder on sparse.solve for the static solution',
+      'Derived radii/height/meridian length from every admissible pair of inputs; partition blocks (kuu, kuk, kku, kkk) and re-insertion for every excluded-dof set with random matrices and vectors; fext.c_u against the work of point forces, axial load (edge circle), pressure '
+      '(surface quadrature) and torque on the reported displacement field with the prescribed-displacement columns moved to the right-hand side; affine dependence on the load factor and fext(0) = constant loads; the observed solve call of static() must use k0uu and calc_fext(1) and satisfy K_uu c_u = f_u.',
+      'torque judged for bc1/bc2 variants only (point-force and line-load readings coincide there); FSDT pressure is a rejection (NotImplementedError)', '4/C18')
+
 ALL = ['C%02d' % i for i in range(1, 21)]
 PENDING_REASON = 'check not built yet in this round (runtime-monitoring plan in DESIGN.md section 4); will be claimed once its monitor runs silent on the unchanged tree'
 
